@@ -338,6 +338,11 @@ func isErrorType(t types.Type) bool { return t.String() == "error" }
 // consistent with the valuation" and is insensitive to how the conditions are written (hoisted into variables,
 // De Morgan, switch, nested ifs).
 func GuidedReach(fn *ssa.Function, target ssa.Instruction, leaf func(v ssa.Value) (val, known bool)) bool {
+	return GuidedReachAvoid(fn, target, nil, leaf)
+}
+
+// GuidedReachAvoid is GuidedReach restricted to paths on which no instruction satisfying avoid executes before target.
+func GuidedReachAvoid(fn *ssa.Function, target ssa.Instruction, avoid func(ssa.Instruction) bool, leaf func(v ssa.Value) (val, known bool)) bool {
 	if len(fn.Blocks) == 0 {
 		return false
 	}
@@ -419,10 +424,18 @@ func GuidedReach(fn *ssa.Function, target ssa.Instruction, leaf func(v ssa.Value
 				}
 			}
 		}
+		stopped := false
 		for _, in := range s.b.Instrs {
 			if in == target {
 				return true
 			}
+			if avoid != nil && avoid(in) {
+				stopped = true
+				break
+			}
+		}
+		if stopped {
+			continue
 		}
 		last := s.b.Instrs[len(s.b.Instrs)-1]
 		if iff, ok := last.(*ssa.If); ok && len(s.b.Succs) == 2 {
